@@ -458,6 +458,8 @@ pub trait IdxEntry {
     fn extend(&mut self, xs: Vec<usize>) -> bool;
     fn clear(&mut self);
     fn obs(&self) -> String;
+    fn reserve(&mut self, n: usize) -> bool;
+    fn caps(&self) -> String;
     fn ser_de(&mut self) -> String;
     fn clone_box(&self) -> Box<dyn IdxEntry>;
 }
@@ -490,6 +492,14 @@ impl<C: IndexContainer<usize> + IdxCaps + Clone + 'static> IdxEntry for C {
             format!("len {} empty {} iter {:?} index [{}] used {:?}", len, Storage::is_empty(self), iter, index.join(", "), used)
         });
         r.unwrap_or_else(|| "panic".into())
+    }
+    fn reserve(&mut self, n: usize) -> bool {
+        guard(|| Storage::reserve(self, n)).is_some()
+    }
+    fn caps(&self) -> String {
+        let mut caps = vec![];
+        self.heap_size(|_, c| caps.push(c));
+        format!("cap {:?}", caps)
     }
     fn ser_de(&mut self) -> String {
         match self.ser().and_then(|t| C::de(&t)) {
